@@ -10,7 +10,9 @@ From TarpcV Require Import Base Schema Wire WireProofs Framing FramingProofs Shi
 
 (* ---- MAIN THEOREM: the monitor accepts every run of the model ----
    For every configuration (codec or channel, every list of read-chunk sizes, every cut position)
-   and every script of well-formed messages of one direction, raw payloads, reads and closes:
+   and every script of well-formed messages of one direction, raw payloads, reads, drops of the
+   writing end (Close) and closes of it that keep it alive (CloseSink: poll_close, which must reach
+   the byte stream -- OShut -- where the medium can signal a half-close: framed and bounded):
    what the reading end yields is exactly what was written, in order, then end-of-stream; of a
    stream cut inside a frame, exactly the whole frames (never a frame for the cut one), then
    the end.  (Whether that end is reported as an error is C16's clause: Shipped.wire_strict_ok.) *)
@@ -18,6 +20,17 @@ Theorem C15_monitor : forall c ops,
   Forall (op_wf (is_c2s ops)) ops ->
   c15_ok c ops (fst (run c ops)) = true.
 Proof. exact c15_monitor_holds. Qed.
+
+(* THE CLOSE CLAUSE in isolation: closing (Sink::poll_close, not dropping) the writing end of a
+   framed transport makes the close reach the byte stream (OShut: poll_shutdown on the medium) and
+   the reader see end-of-stream right after the last message *)
+Theorem C15_close_signals_end : forall c ops,
+  is_framed (codec c) = true -> cut c = 0%nat ->
+  Forall (op_wf (is_c2s (ops ++ [CloseSink]))) ops ->
+  Forall (fun o => match o with Close | CloseSink => False | _ => True end) ops ->
+  exists items, last (fst (run c (ops ++ [CloseSink]))) [] = OShut :: items ++ [OEnd] /\
+                ~ In OStreamErr items /\ ~ In OEnd items /\ ~ In OShut items.
+Proof. exact c15_close_signals_end. Qed.
 
 (* in-memory channels need no hypothesis at all *)
 Theorem C15_monitor_channels : forall c ops,
@@ -172,6 +185,7 @@ Proof. vm_compute. repeat split; reflexivity. Qed.
 
 Print Assumptions C15_monitor.
 Print Assumptions C15_monitor_channels.
+Print Assumptions C15_close_signals_end.
 Print Assumptions C15_bincode_roundtrip.
 Print Assumptions C15_bincode_roundtrip_response.
 Print Assumptions C15_json_tree_roundtrip.
